@@ -45,10 +45,11 @@ func (l *simListener) Addr() net.Addr { return simAddr("sim.example:5280") }
 
 // WSConn is the server side of one XMPP-over-WebSocket session.
 type WSConn struct {
-	S    *WSServer
-	Idx  int
-	Pipe *Pipe
-	c    *websocket.Conn
+	S       *WSServer
+	TextEnd int64 // bytes written when the text of the latest fragmented message was out
+	Idx     int
+	Pipe    *Pipe
+	c       *websocket.Conn
 	// frames received from the client, as DOM
 	Recv        []*Elem
 	RecvRaw     []string
@@ -151,6 +152,9 @@ func (wc *WSConn) SendFragmented(raw string, parts int) error {
 		}
 	}
 	err = w.Close()
+	// the library ends the message with an empty final frame (a two byte header, written together with
+	// the frames before it): everything before that frame is the whole text
+	wc.TextEnd = wc.Pipe.Srv.TotalWritten - 2
 	wc.S.e.Logf("srv.send", "%s (in %d fragments) %s", wc.name(), parts, clip(raw, 120))
 	return err
 }
